@@ -562,22 +562,34 @@ class QuicConnection:
                     (tls.Epoch.HANDSHAKE, QuicPacketType.HANDSHAKE),
                 ]
             epoch_packet_types.append((tls.Epoch.ONE_RTT, QuicPacketType.ONE_RTT))
-            for epoch, packet_type in epoch_packet_types:
-                crypto = self._cryptos[epoch]
-                if crypto.send.is_valid():
-                    builder.start_packet(packet_type, crypto)
-                    try:
-                        self._write_connection_close_frame(
-                            builder=builder,
-                            epoch=epoch,
-                            error_code=self._close_event.error_code,
-                            frame_type=self._close_event.frame_type,
-                            reason_phrase=self._close_event.reason_phrase,
-                        )
-                    except QuicPacketBuilderStop:
-                        # the frame does not fit, e.g. into an INITIAL packet
-                        # which carries a very long token
-                        pass
+
+            # the closing packets count against the limit on un-validated
+            # network paths like everything else
+            if not network_path.is_validated:
+                builder.max_total_bytes = (
+                    network_path.bytes_received * 3 - network_path.bytes_sent
+                )
+
+            try:
+                for epoch, packet_type in epoch_packet_types:
+                    crypto = self._cryptos[epoch]
+                    if crypto.send.is_valid():
+                        builder.start_packet(packet_type, crypto)
+                        try:
+                            self._write_connection_close_frame(
+                                builder=builder,
+                                epoch=epoch,
+                                error_code=self._close_event.error_code,
+                                frame_type=self._close_event.frame_type,
+                                reason_phrase=self._close_event.reason_phrase,
+                            )
+                        except QuicPacketBuilderStop:
+                            # the frame does not fit, e.g. into an INITIAL
+                            # packet which carries a very long token
+                            pass
+            except QuicPacketBuilderStop:
+                # there is no room for another packet
+                pass
             self._logger.info(
                 "Connection close sent (code 0x%X, reason %s)",
                 self._close_event.error_code,
